@@ -181,6 +181,77 @@ def run_provider(kind, rng):
     return term, human
 
 
+def dispatched_cases(rng, n):
+    """Requests that reach the provider callables the way they do in service: through AssociationAcceptor.accept() and
+    _loop().  The peer proposes every class on two or three presentation contexts (one per transfer syntax, as storescu
+    and others do), all are accepted, and requests arrive on all of them in a mixed order: every response must go out
+    on the context ITS request arrived on, answering its message id, for its class."""
+    import nego_driver as nd
+    from pynetdicom2 import asceprovider, sopclass, dimsemessages as dm, exceptions, statuses
+    TS2 = ['1.2.840.10008.1.2', '1.2.840.10008.1.2.1', '1.2.840.10008.1.2.2']
+    out = []
+    for k in range(n):
+        lab = sd.Lab(16384)
+        acc = nd.new_acceptor(lab.ae, lab.assoc.dul, 16384)
+        acc.association_established = True
+        lab.ae.supported_scp = {VERIF: sopclass.verification_scp, FIND: sopclass.qr_find_scp, CT: sopclass.storage_scp}
+        lab.ae.supported_ts = frozenset(TS2)
+        classes = [VERIF, FIND, CT]
+        rng.shuffle(classes)
+        proposals = []
+        cid = rng.choice([1, 3, 11])
+        for c in classes:
+            for j in range(rng.choice([2, 3])):
+                proposals.append((cid, c, [TS2[j]]))
+                cid += 2
+        rng.shuffle(proposals)
+        proposals = [(1 + 2 * i, c, t) for i, (_c0, c, t) in enumerate(proposals)]
+        acc.accept(nd.make_rq(proposals, 16384))
+        del lab.assoc.dul.sent[:]
+        lab.matches = [(sd.small_dataset(0), statuses.Status(0xFF00, dm.CFindRSPMessage))]
+        order = [p for p in proposals if p[0] in acc.sop_classes_as_scp]
+        order = order + order[::-1]
+        rng.shuffle(order)
+        queue = []
+        want = []
+        for i, (pc, c, _t) in enumerate(order):
+            mid = 100 + i
+            if c == VERIF:
+                m = dm.CEchoRQMessage()
+            elif c == FIND:
+                m = dm.CFindRQMessage()
+                m.priority = 0
+                m.data_set = sd.encode_ds(sd.small_dataset(1))
+            else:
+                m = dm.CStoreRQMessage()
+                m.priority = 0
+                m.affected_sop_instance_uid = '1.2.3.%d' % i
+                import io
+                m.data_set = io.BytesIO(b'\x08\x00\x18\x00\x04\x00\x00\x001.2\x00')   # storage_scp is a store-in-file service
+            m.message_id = mid
+            m.sop_class_uid = c
+            queue.append((m, pc))
+            want += [(pc, mid, c)] * (2 if c == FIND else 1)
+
+        def receive(q=queue):
+            if q:
+                return q.pop(0)
+            acc.is_killed = True
+            raise exceptions.DCMTimeoutError()
+        acc.receive = receive
+        err = None
+        try:
+            acc._loop()
+        except exceptions.DCMTimeoutError:
+            pass
+        except Exception as e:  # noqa
+            err = '%s: %s' % (type(e).__name__, e)
+        got = [(r['pc'], r['mid_resp'], r['sop']) for r in lab.sent() if 'cf' in r]
+        out.append(dict(proposals=[(i, c, t[0]) for i, c, t in proposals], arrival_order=[(pc, c) for pc, c, _t in order],
+                        error=err, expected=want, responses=got, ok=(err is None and got == want)))
+    return out
+
+
 def main_c17(tier, seed):
     dec = common.Decision('C17', tier, seed)
     common.static_gate(dec, ['Properties/C17.v'], ['Proofs/ServicesProofs.v'])
@@ -190,6 +261,11 @@ def main_c17(tier, seed):
         for _ in range(60 if tier == 'quick' else 600):
             obs.append(run_provider(kind, rng))
     obs += get_scu_cases(rng, 40 if tier == 'quick' else 400, as_c17=True)
+    disp = dispatched_cases(rng, 12 if tier == 'quick' else 120)
+    dec._dispatched = dict(cases=len(disp), requests=sum(len(d['arrival_order']) for d in disp), failing=sum(1 for d in disp if not d['ok']))
+    for d in disp:
+        if not d['ok']:
+            dec.report(dict(d, kind='response-not-on-the-context-of-its-request'))
     return finish(dec, 'C17', obs, 'pcase', [('corr', 'svc_corr'), ('spec', 'svc_spec')],
                   ('every provider callable x message ids {0,1,255,256,65535,random} x context ids x SOP class / instance '
                    'UIDs (lengths 1..64) x handler outcomes (success, warning, failures, EventHandlingError) x result list '
